@@ -60,9 +60,11 @@ func cmdRace(args []string) int {
 	_ = realStdout
 	start := time.Now()
 	r := NewRng(*seed)
-	dur := 12 * time.Second
+	// a fixed amount of work per goroutine (so that the evidence describes the same run on a loaded and on an idle
+	// machine), under a generous wall-clock cap
+	iters, dur := 500, 4*time.Minute
 	if *tier == "thorough" {
-		dur = 5 * time.Minute
+		iters, dur = 25000, 30*time.Minute
 	}
 	// tasks
 	var tasks []*raceTask
@@ -153,7 +155,7 @@ func cmdRace(args []string) int {
 		go func(gidx int) {
 			defer wg.Done()
 			lr := NewRng(*seed*1000 + uint64(gidx))
-			for time.Now().Before(stop) {
+			for it := 0; it < iters && time.Now().Before(stop); it++ {
 				t := tasks[lr.Intn(len(tasks))]
 				got := ""
 				if t.static {
@@ -217,7 +219,7 @@ func cmdRace(args []string) int {
 	}
 	wg.Wait()
 	sum := Summary{Property: "C18", Tier: *tier, Seed: *seed, Evaluations: int(evals), DistinctNontrivial: len(tasks),
-		Rule: "16 goroutines for 12 s (thorough: 5 min) run ParseStatic on 10 shared archives (two with every table behind a UTF-8 byte-order mark, two in UTF-16 behind its mark) and ParseRealtime on 42 shared messages under 13 extension configurations, each configuration sharing ONE options value and extension object across all goroutines (plus a shared zero-valued options value); every result is compared with the same call made alone, results are hashed and walked from other goroutines; the binary is built with -race; distinct_nontrivial counts the distinct tasks",
+		Rule: "16 goroutines, 500 calls each (thorough: 25 000 each), run ParseStatic on 10 shared archives (two with every table behind a UTF-8 byte-order mark, two in UTF-16 behind its mark) and ParseRealtime on 42 shared messages under 13 extension configurations, each configuration sharing ONE options value and extension object across all goroutines (plus a shared zero-valued options value); every result is compared with the same call made alone, results are hashed and walked from other goroutines; the binary is built with -race; distinct_nontrivial counts the distinct tasks",
 		Tags: map[string]int{"tasks": len(tasks), "mismatches": int(mismatches)}, KnownSeen: map[string]int{}, Validated: int(evals - mismatches)}
 	for _, t := range tasks[:3] {
 		sum.Samples = append(sum.Samples, t.desc)
